@@ -1,0 +1,19 @@
+//go:build verif
+
+package time
+
+// Contracts for the deductive checks in /verif (read by /verif/govc; comment-only, no code).
+
+// prefixWeight(wts, n): total weight of the non-nil entries among the first n.
+//@ spec func prefixWeight(wts []*WeightedTime, n int) int64 = ite(n <= 0, 0, prefixWeight(wts, n-1) + ite(wts[n-1] == nil, 0, wts[n-1].Weight))
+
+// The weighted median of the (sorted) entries: the time of the first non-nil entry at which the cumulative weight
+// reaches totalVotingPower/2 — stated over the slice as sort.Slice left it (sortedness itself is ASSUMED of sort.Slice).
+//@ func WeightedMedian
+//@   ensures found: exists(k, 0, len(weightedTimes), weightedTimes[k] != nil && res == weightedTimes[k].Time &&
+//@     | totalVotingPower / 2 - prefixWeight(weightedTimes, k) <= weightedTimes[k].Weight &&
+//@     | forall(j, 0, k, weightedTimes[j] == nil || totalVotingPower / 2 - prefixWeight(weightedTimes, j) > weightedTimes[j].Weight), rangeindex) ||
+//@     | (res == 0 && forall(j, 0, len(weightedTimes), weightedTimes[j] == nil || totalVotingPower / 2 - prefixWeight(weightedTimes, j) > weightedTimes[j].Weight))
+//@   loop 1 invariant idx: 0 <= rangeindex + 1 && rangeindex + 1 <= len(weightedTimes)
+//@   loop 1 invariant acc: median == totalVotingPower / 2 - prefixWeight(weightedTimes, rangeindex + 1) && res == 0
+//@   loop 1 invariant none: forall(j, 0, rangeindex + 1, weightedTimes[j] == nil || totalVotingPower / 2 - prefixWeight(weightedTimes, j) > weightedTimes[j].Weight)
